@@ -229,6 +229,17 @@ type c20Run struct {
 	Nonce int    `json:"nonce"`
 }
 
+// c20Peer is interference by a concurrent peer initialiser (a second pod running
+// the same init: core / rbac-manager init containers, replicas, rolling update):
+// right before API call number Before of run number Run the peer has written
+// these secrets (whole objects: an existing secret of that name is replaced and
+// gets a new resourceVersion, a missing one is created).
+type c20Peer struct {
+	Run     int         `json:"run"`
+	Before  int         `json:"before"`
+	Secrets []c20Secret `json:"secrets"`
+}
+
 type c20Scn struct {
 	Kind  string    `json:"kind"` // init | steps
 	NS    string    `json:"ns"`   // namespace of the secrets
@@ -236,6 +247,7 @@ type c20Scn struct {
 	Steps []c20Step `json:"steps"`
 	Store c20Store  `json:"store"`
 	Runs  []c20Run  `json:"runs"`
+	Peer  []c20Peer `json:"peer"`  // writes of a concurrent peer initialiser between our API calls
 	Real  bool      `json:"real"`  // use initializer.NewCertGenerator (RSA key generation) instead of the pooled-key generator
 	Fresh int       `json:"fresh"` // first id available for generated key pairs
 }
@@ -458,8 +470,9 @@ func (w *c20World) stepsOf(s *c20Scn) []c20Step {
 	return s.Steps
 }
 
-// runOnce runs initializer.New(...).Init once under the run's plan.
-func (w *c20World) runOnce(s *c20Scn, r c20Run, mons *[]Mon) c20Result {
+// runOnce runs initializer.New(...).Init once under the run's plan (run number idx of the scenario:
+// the peer writes of that run are applied in simstore's before-the-call window).
+func (w *c20World) runOnce(s *c20Scn, idx int, r c20Run, mons *[]Mon) c20Result {
 	st := w.st
 	st.Revive()
 	st.Plan = c20PlanOf(r)
@@ -467,7 +480,7 @@ func (w *c20World) runOnce(s *c20Scn, r c20Run, mons *[]Mon) c20Result {
 	done := 0
 	gen0 := w.crypto.calls
 	res := c20Result{before: c20Snap(st)}
-	w.watch(s, mons)
+	w.watch(s, idx, mons)
 	steps := c20RealSteps(w, s.NS, w.stepsOf(s))
 	var err error
 	if p := Guard(func() {
@@ -477,6 +490,7 @@ func (w *c20World) runOnce(s *c20Scn, r c20Run, mons *[]Mon) c20Result {
 		err = fmt.Errorf("panic")
 	}
 	st.After = nil
+	st.Before = nil
 	o := c20RunObs{Done: done, Log: []string{}}
 	switch {
 	case st.Crashed():
@@ -551,15 +565,25 @@ func c20Leaves(steps []c20Step) (cas map[string]bool, leaves map[string][]c20Lea
 // watch installs the per-call monitors: existing CA / certificates / default
 // objects are never rewritten, and every newly issued certificate verifies
 // (real x509.Verify: supporting evidence at test level, crypto is not modelled).
-func (w *c20World) watch(s *c20Scn, mons *[]Mon) {
+func (w *c20World) watch(s *c20Scn, idx int, mons *[]Mon) {
 	st := w.st
 	steps := w.stepsOf(s)
 	cas, leaves := c20Leaves(steps)
-	secBefore := map[string]*corev1.Secret{}
-	for _, u := range st.OfKind(c20GKSecret) {
-		sec := &corev1.Secret{}
-		_ = runtime.DefaultUnstructuredConverter.FromUnstructured(u.Object, sec)
-		secBefore[sec.Name] = sec
+	// the secret as stored at the moment of our write (after whatever the peer did before that call)
+	atWrite := map[int]*corev1.Secret{}
+	st.Before = func(ci CallInfo) {
+		for i := range s.Peer {
+			if s.Peer[i].Run == idx && s.Peer[i].Before == ci.Index {
+				w.applyPeer(s, &s.Peer[i], steps)
+			}
+		}
+		if ci.GK == "Secret" && ci.IsWrite() {
+			if u := st.Peek(c20GKSecret, ci.NS, ci.Name); u != nil {
+				sec := &corev1.Secret{}
+				_ = runtime.DefaultUnstructuredConverter.FromUnstructured(u.Object, sec)
+				atWrite[ci.Index] = sec
+			}
+		}
 	}
 	defaults := map[string]string{}
 	for k, v := range c20Snap(st) {
@@ -586,17 +610,18 @@ func (w *c20World) watch(s *c20Scn, mons *[]Mon) {
 			}
 			sec := &corev1.Secret{}
 			_ = runtime.DefaultUnstructuredConverter.FromUnstructured(u.Object, sec)
-			old := secBefore[ci.Name]
+			old := atWrite[ci.Index]
 			if old != nil && !reflect.DeepEqual(old.Data, sec.Data) {
 				mat, complete := c20SecretMaterial(old)
 				if cas[ci.Name] && complete {
-					add("C20:ca-regenerated", "a complete CA secret ("+ci.Name+") was rewritten")
+					add("C20:ca-regenerated", "a CA secret ("+ci.Name+") that was complete at the moment of the write was rewritten")
 				} else if !cas[ci.Name] && mat {
-					add("C20:cert-regenerated", "TLS secret "+ci.Name+" already held certificate material and was rewritten")
+					add("C20:cert-regenerated", "TLS secret "+ci.Name+" held certificate material at the moment of the write and was rewritten")
 				}
 			}
 			if ls, ok := leaves[ci.Name]; ok && !cas[ci.Name] && ci.Changed {
 				w.verifyLeaf(st, ci.NS, sec, steps, ls, add)
+				w.issued[ci.Name] = "this run"
 			}
 			if cas[ci.Name] && ci.Changed {
 				w.verifyCA(sec, add)
@@ -914,16 +939,18 @@ func c20RunScn(s *c20Scn) (c20Obs, []Mon) {
 		s2 := *s
 		w2 := c20NewWorld(&s2)
 		var junk []Mon
-		baseline = w2.runOnce(&s2, c20Run{K: -1}, &junk).obs.Res
+		baseline = w2.runOnce(&s2, -1, c20Run{K: -1}, &junk).obs.Res // idx -1: without the peer
 	}
 	prev := c20Result{}
 	aborted := false
 	for i := range s.Runs {
 		s.Runs[i].Nonce = w.crypto.next
 		before := w.canon(s)
-		res := w.runOnce(s, s.Runs[i], &mons)
+		res := w.runOnce(s, i, s.Runs[i], &mons)
 		w.postMonitors(s, before, res, &mons)
-		faultFree := s.Runs[i].K < 0 || s.Runs[i].K >= res.calls
+		w.chainMonitor(s, &mons)
+		// "fault free" for the idempotence / re-run monitors: no injected fault AND no peer acting during the run
+		faultFree := (s.Runs[i].K < 0 || s.Runs[i].K >= res.calls) && !c20HasPeer(s, i, res.calls)
 		if i > 0 && prev.obs.Res == "ok" && res.obs.Res == "ok" && faultFree {
 			// Two declarations that resolve to one object (two requested images with one object name, two files
 			// with one name) overwrite each other on every run: then only the content is compared, and for
@@ -971,6 +998,96 @@ func c20RunScn(s *c20Scn) (c20Obs, []Mon) {
 	return obs, mons
 }
 
+// c20HasPeer: a peer write of run i falls before one of the calls the run issued.
+func c20HasPeer(s *c20Scn, i, calls int) bool {
+	for _, p := range s.Peer {
+		if p.Run == i && p.Before < calls && len(p.Secrets) > 0 {
+			return true
+		}
+	}
+	return false
+}
+
+// chainMonitor (end of every run): every leaf certificate that was issued during the scenario - by one of
+// our runs, or by the peer while a complete CA was stored and the certificate verified against it - still
+// verifies (real x509) against the CA certificate that is stored NOW. An initialiser that regenerates or
+// overwrites an existing CA leaves such certificates behind, chained to an authority that no longer exists.
+func (w *c20World) chainMonitor(s *c20Scn, mons *[]Mon) {
+	st := w.st
+	steps := w.stepsOf(s)
+	_, leaves := c20Leaves(steps)
+	names := []string{}
+	for n := range w.issued {
+		names = append(names, n)
+	}
+	sort.Strings(names)
+	for _, n := range names {
+		u := st.Peek(c20GKSecret, s.NS, n)
+		if u == nil {
+			continue
+		}
+		sec := &corev1.Secret{}
+		_ = runtime.DefaultUnstructuredConverter.FromUnstructured(u.Object, sec)
+		if why := w.leafChains(st, s.NS, sec, c20CAOf(steps, n), leaves[n]); why != "" {
+			*mons = append(*mons, Mon{Sig: "C20:leaf-does-not-chain", Why: "TLS secret " + n + " (issued by " + w.issued[n] + ") at the end of the run: " + why})
+		}
+	}
+}
+
+// c20CAOf: the CA secret of the TLS step that configures leaf secret `name`.
+func c20CAOf(steps []c20Step, name string) string {
+	ca := ""
+	for _, s := range steps {
+		if s.T != "tls" {
+			continue
+		}
+		if ca == "" {
+			ca = s.CA
+		}
+		if (s.Server != nil && s.Server.Name == name) || (s.Client != nil && s.Client.Name == name) {
+			return s.CA
+		}
+	}
+	return ca
+}
+
+// leafChains: "" if tls.crt of `sec` verifies (x509, for one of its configured usages) against tls.crt of the
+// stored CA secret and ca.crt of `sec` is that certificate; otherwise why not.
+func (w *c20World) leafChains(st *Store, ns string, sec *corev1.Secret, caName string, ls []c20Leaf) string {
+	leaf := c20ParseCertPEM(sec.Data[corev1.TLSCertKey])
+	if leaf == nil {
+		return "tls.crt does not parse"
+	}
+	cu := st.Peek(c20GKSecret, ns, caName)
+	if cu == nil {
+		return "no CA secret " + caName + " is stored"
+	}
+	ca := &corev1.Secret{}
+	_ = runtime.DefaultUnstructuredConverter.FromUnstructured(cu.Object, ca)
+	pool := x509.NewCertPool()
+	if !pool.AppendCertsFromPEM(ca.Data[corev1.TLSCertKey]) {
+		return "tls.crt of the stored CA secret does not parse"
+	}
+	if string(sec.Data[initializer.SecretKeyCACert]) != string(ca.Data[corev1.TLSCertKey]) {
+		return "its ca.crt is not the certificate stored in " + caName
+	}
+	usages := []x509.ExtKeyUsage{}
+	for _, l := range ls {
+		if l.server {
+			usages = append(usages, x509.ExtKeyUsageServerAuth)
+		} else {
+			usages = append(usages, x509.ExtKeyUsageClientAuth)
+		}
+	}
+	if len(usages) == 0 {
+		usages = []x509.ExtKeyUsage{x509.ExtKeyUsageAny}
+	}
+	if _, err := leaf.Verify(x509.VerifyOptions{Roots: pool, KeyUsages: usages}); err != nil {
+		return "does not chain to the CA stored in " + caName + " (x509.Verify: " + err.Error() + ")"
+	}
+	return ""
+}
+
 // c20Contested: some object is written twice in one run (any kind / a package kind).
 func c20Contested(log []string) (any, pkg bool) {
 	seen := map[string]bool{}
@@ -1015,6 +1132,15 @@ func c20Cls(s *c20Scn, o c20Obs) string {
 		rs = append(rs, x)
 	}
 	parts = append(parts, strings.Join(rs, ","))
+	for _, p := range s.Peer {
+		// which of our calls the peer got in front of
+		at := "none"
+		if p.Run < len(o.Runs) && p.Before < len(o.Runs[p.Run].Log) {
+			l := strings.SplitN(o.Runs[p.Run].Log[p.Before], ":", 3)
+			at = l[0] + ":" + l[1]
+		}
+		parts = append(parts, fmt.Sprintf("peer@%s(%d)", at, len(p.Secrets)))
+	}
 	n := len(s.Store.Secrets) + len(s.Store.Pkgs) + len(s.Store.Crds) + len(s.Store.Whcs)
 	switch {
 	case n == 0:
